@@ -185,7 +185,9 @@ func (GoAdapter) DatasetNames(s *Session) ([]string, error) {
 // compact runs deduplicating compaction synchronously.
 func (s *Session) compact(real string) error {
 	c := dataset.NewCompactor(s.W.Store, s.W.Dsm, zap.NewNop().Sugar())
-	return c.VerifCompact(real, dataset.DeduplicationStrategy())
+	// flush threshold rotates over {1, 2, product default} by session
+	th := []int{1, 2, 0}[s.Variant%3]
+	return c.VerifCompact(real, dataset.VerifDedupStrategy(th))
 }
 
 // injectDup realises the specification's InjectDup: it leaves a version in the
